@@ -92,7 +92,7 @@ pub fn check_point(case: &Case, knobs: &Knobs, strat: &Strategy, full: &RunOut, 
                 }
             } else {
                 match &got.res {
-                    Err((_, m)) if m.contains(TAG_SINK) => {}
+                    Err((kind, m)) if m.contains(TAG_SINK) && *kind == ERR_KINDS[k % ERR_KINDS.len()] => {}
                     r => return Some((format!("sink-error-not-returned:{lp}"), format!("error at event {k}: search returned {r:?}"), got)),
                 }
                 if got.finish_calls != 0 {
@@ -121,7 +121,7 @@ pub fn check_point(case: &Case, knobs: &Knobs, strat: &Strategy, full: &RunOut, 
                     return None; // the search ended before read j was issued
                 }
                 match &got.res {
-                    Err((_, m)) if m.contains(TAG_READ) => {}
+                    Err((kind, m)) if m.contains(TAG_READ) && *kind == ERR_KINDS[j % ERR_KINDS.len()] => {}
                     r => return Some((format!("read-error-not-returned:{lp}"), format!("read {j} failed but the search returned {r:?}"), got)),
                 }
                 if got.finish_calls != 0 {
@@ -545,6 +545,37 @@ fn printer_leg(sub: u64, case: &Case, rng: &mut Rng, acc: &mut Acc) {
                         acc.violations.push(mk(&class, format!("max_matches={n}: one {which} sink used for two searches; output differs from that of two fresh sinks at byte {d}: printed ...{:?}, fresh sinks ...{:?}", show(&got[from..got.len().min(d + 120)]), show(&expect[from..expect.len().min(d + 120)])), n, which, &got));
                     }
                 }
+            }
+        }
+    }
+    // a writer that takes 1-7 bytes per call and asks for a retry (Interrupted) one call in four:
+    // every printer still delivers exactly the bytes it delivers to a well-behaved writer
+    for which in ["standard", "summary-count", "json"] {
+        acc.evals += 1;
+        acc.faults.inc("writer-short-and-interrupted-writes");
+        macro_rules! both {
+            ($mk:expr, $inner:expr) => {{
+                let run1 = |w: SimWriter| {
+                    let mut p = $mk(w);
+                    let mut searcher = build_searcher(&c.cfg, &Knobs::default());
+                    let r = searcher.search_slice(&matcher, &c.data, p.sink(&matcher));
+                    let w: SimWriter = $inner(p);
+                    (w.out, r.map_err(|e| e.to_string()))
+                };
+                (run1(SimWriter::new(None)), run1(SimWriter::flaky(sub ^ 0x77)))
+            }};
+        }
+        let ((good, _), (flaky, res)) = match which {
+            "standard" => both!(|w| StandardBuilder::new().build_no_color(w), |p: grep_printer::Standard<termcolor::NoColor<SimWriter>>| p.into_inner().into_inner()),
+            "summary-count" => both!(|w| SummaryBuilder::new().kind(SummaryKind::Count).build_no_color(w), |p: grep_printer::Summary<termcolor::NoColor<SimWriter>>| p.into_inner().into_inner()),
+            _ => both!(|w| JSONBuilder::new().build(w), |p: grep_printer::JSON<SimWriter>| p.into_inner()),
+        };
+        let (good, flaky) = if which == "json" { (mask_json_times(&good), mask_json_times(&flaky)) } else { (good, flaky) };
+        if res.is_err() || good != flaky {
+            let class = format!("flaky-writer:{which}");
+            if acc.violations.iter().filter(|v| v.class == class).count() < 10 {
+                let d = good.iter().zip(flaky.iter()).take_while(|(a, b)| a == b).count();
+                acc.violations.push(mk(&class, format!("{which} printer over a writer with short and interrupted writes: result {:?}, output differs from the well-behaved writer's at byte {d} ({} vs {} bytes)", res, flaky.len(), good.len()), 0, which, &flaky));
             }
         }
     }
